@@ -164,7 +164,7 @@ let () =
                   let evs = events_of_ints (List.map int_of_string (List.filter (fun w -> w <> "") (String.split_on_char ' ' evs))) in
                   let ilt = (ilt = "1") in
                   if l.[0] = 'M' then begin
-                    print_string (if md_contractb ilt (encode text) (nat_of_int 0) (nat_of_int 0) None [] evs then "K1 " else "K0 ");
+                    print_string (if md_contractb (encode text) evs then "K1 " else "K0 ");
                     print_res (markdown_parse (uni_now ()) ilt text evs)
                   end else print_res (document_markdown (uni_now ()) ilt text evs)
               | [] -> print_endline "?")
